@@ -138,7 +138,8 @@ def check(ctx):
                            any(is_date(x) or (isinstance(strip(x), Bin)) for x in dates),
                            node=n, message='operands of the age test: %s' % short(a, 120))
         # a constant True in the join must be the verdict for "DAYS not given"
-        true_ok = all(o is not None and any(g.dominates(dn, o) for dn in days_none)
+        true_ok = all(o is not None and (any(g.dominates(dn, o) for dn in days_none) or
+                                         cut_c(b, g.entry, o, days_none))
                       for a, o in consts if truth_of(a))
         if ok and pol and true_ok:
             canon_true.append(n.id)
